@@ -4,6 +4,8 @@ Property theorems only.  All quantify over EVERY parameter row regenerated from 
 (`Gen.cparams ++ Gen.dparams`) and over EVERY integer value `v` (no grid).
 -/
 import ZstdVerif.Model.Params
+import ZstdVerif.Model.LevelParams
+import ZstdVerif.Lemmas.LevelParamsValid
 
 namespace ZstdVerif.Props.C16
 open ZstdVerif ZstdVerif.Gen ZstdVerif.Params
@@ -148,5 +150,137 @@ theorem setSeq_keeps_stage (ps : List PInfo) (kvs : List (Nat × Int)) (s s' : C
             · cases h1; exact this
 
 example : checkCParamsStruct cparams [0, 10, 10, 1, 4, 1, 1] = false ∧ checkCParamsStruct cparams [17, 10, 10, 1, 4, 1, 1] = true := by decide
+
+
+/-! ### contexts in caller-provided memory (ZSTD_initStaticCCtx / ZSTD_initStaticDCtx) -/
+
+/-- (c) on a static context too a rejected call changes nothing: an error (no new state), or the old state changed at position `k` only -/
+theorem static_rejected_changes_nothing (ps : List PInfo) (isC : Bool) (s : Ctx) (k : Nat) (v : Int) :
+    (∃ e, LevelParams.setParamStatic ps isC s k v = .error e) ∨
+    (∃ w, LevelParams.setParamStatic ps isC s k v = .ok { s with vals := s.vals.set k w }) := by
+  unfold LevelParams.setParamStatic
+  split
+  · exact Or.inl ⟨_, rfl⟩
+  · split
+    · exact Or.inl ⟨_, rfl⟩
+    · split
+      · exact Or.inl ⟨_, rfl⟩
+      · split
+        · exact Or.inl ⟨_, rfl⟩
+        · split
+          · exact Or.inl ⟨_, rfl⟩
+          · exact Or.inr ⟨_, rfl⟩
+
+/-- a static CCtx refuses every non-zero ZSTD_c_nbWorkers AT THE SETTER (outside a frame: parameter_unsupported; inside: the stage gate
+answers first) - whatever the value, in or out of the advertised bounds; by `static_rejected_changes_nothing` nothing is stored, so no
+later frame can meet a worker count the context cannot serve -/
+theorem static_nbWorkers_refused (ps : List PInfo) (s : Ctx) (k : Nat) (p : PInfo) (v : Int)
+    (hk : ps[k]? = some p) (hid : p.id = LevelParams.idNbWorkers) (hv : v ≠ 0) :
+    LevelParams.setParamStatic ps true s k v = .error (if s.started && !p.mid then .stage else .unsupported) := by
+  unfold LevelParams.setParamStatic
+  rw [hk]
+  cases hs : (s.started && !p.mid) <;> simp_all
+
+/-- every other compression parameter behaves on a static CCtx exactly as on a heap CCtx (same acceptance, same stored value, same error) -/
+theorem static_cctx_agrees_elsewhere (ps : List PInfo) (s : Ctx) (k : Nat) (p : PInfo) (v : Int)
+    (hk : ps[k]? = some p) (hid : p.id ≠ LevelParams.idNbWorkers ∨ v = 0) :
+    LevelParams.setParamStatic ps true s k v = setParam ps true s k v := by
+  have hcond : (true && p.id == LevelParams.idNbWorkers && decide (v ≠ 0)) = false := by
+    rcases hid with h | h
+    · have : (p.id == LevelParams.idNbWorkers) = false := by simpa using h
+      simp [this]
+    · simp [h]
+  unfold LevelParams.setParamStatic setParam
+  rw [hk]
+  simp only [hcond]
+  cases hst : (s.started && !(true && p.mid))
+  · cases hsv : setVal p v <;> simp
+  · simp
+
+example : ∃ k p, cparams[k]? = some p ∧ p.id = LevelParams.idNbWorkers ∧
+    LevelParams.setParamStatic cparams true (fresh cparams) k 2 = .error .unsupported ∧ (∃ c, setParam cparams true (fresh cparams) k 2 = .ok c) := by
+  refine ⟨17, cparams[17], by decide, by decide, by rfl, ⟨_, rfl⟩⟩
+
+/-! ### raw compression levels (entry points that do not go through the setter's clamp) -/
+
+/-- however small a negative raw level is (down to INT_MIN and beyond), the acceleration factor it stands for lies inside the advertised
+bounds of ZSTD_c_targetLength -/
+theorem accel_in_bounds (level : Int) (h : level < 0) : within cparams 106 (LevelParams.accel level) = true := by
+  have hb : boundsOfId cparams 106 = some ((ZSTD_TARGETLENGTH_MIN : Int), (ZSTD_TARGETLENGTH_MAX : Int)) := by decide
+  have hm : minCLevel = -((ZSTD_TARGETLENGTH_MAX : Nat) : Int) := by decide
+  unfold within
+  rw [hb]
+  simp only [LevelParams.accel, hm, ZSTD_TARGETLENGTH_MIN, ZSTD_TARGETLENGTH_MAX]
+  simp
+  omega
+
+/-- levels outside [ZSTD_minCLevel(), ZSTD_maxCLevel()] stand for the nearest bound: same table row, same acceleration -/
+theorem level_below_min_is_min (level : Int) (h : level ≤ minCLevel) :
+    LevelParams.rowOfLevel level = LevelParams.rowOfLevel minCLevel ∧ LevelParams.accel level = LevelParams.accel minCLevel := by
+  have hm : minCLevel < 0 := by decide
+  constructor
+  · unfold LevelParams.rowOfLevel
+    have h1 : level < 0 := by omega
+    have h2 : level ≠ 0 := by omega
+    have h3 : minCLevel ≠ 0 := by omega
+    simp [h1, h2, h3, hm]
+  · unfold LevelParams.accel
+    rw [Int.max_eq_left h, Int.max_self]
+
+theorem level_above_max_is_max (level : Int) (h : (ZSTD_MAX_CLEVEL : Int) ≤ level) :
+    LevelParams.rowOfLevel level = ZSTD_MAX_CLEVEL := by
+  unfold LevelParams.rowOfLevel
+  have h0 : (0 : Int) < (ZSTD_MAX_CLEVEL : Int) := by decide
+  have h1 : ¬ level < 0 := by omega
+  have h2 : level ≠ 0 := by omega
+  by_cases h3 : level > (ZSTD_MAX_CLEVEL : Int)
+  · simp [h1, h2, h3]
+  · have : level = (ZSTD_MAX_CLEVEL : Int) := by omega
+    subst this
+    decide
+
+/-- the row a raw level selects always exists in the 23-row level tables -/
+theorem rowOfLevel_in_table (level : Int) : LevelParams.rowOfLevel level ≤ ZSTD_MAX_CLEVEL := by
+  unfold LevelParams.rowOfLevel
+  have hd : ZSTD_CLEVEL_DEFAULT.toNat ≤ ZSTD_MAX_CLEVEL := by decide
+  split
+  · exact hd
+  · split
+    · exact Nat.zero_le _
+    · split
+      · exact Nat.le_refl _
+      · omega
+
+/-- "level -> parameter tables and adjustment never produce out-of-range values": ZSTD_adjustCParams_internal keeps a structure that
+passes ZSTD_checkCParams valid, for every source size, dictionary size, mode and row-finder switch -/
+theorem adjust_preserves_valid (c : CPar) (src dict : Nat) (mode : LevelParams.CPMode) (rowMode : Nat) (h : checkCParams c = true) :
+    checkCParams (LevelParams.adjust c src dict mode rowMode) = true :=
+  (LevelParams.check_iff _).2 (LevelParams.adjust_preserves_valid c src dict mode rowMode ((LevelParams.check_iff _).1 h))
+
+/-- ZSTD_getCParams_internal (behind ZSTD_compress, ZSTD_compressCCtx, ZSTD_compress_usingDict, ZSTD_compressBegin[_usingDict], ZSTD_estimate*):
+EVERY integer level - INT_MIN, below ZSTD_minCLevel(), above ZSTD_maxCLevel() included - with every source and dictionary size derives
+compression parameters that pass ZSTD_checkCParams -/
+theorem raw_level_derivation_valid (level : Int) (src dict : Nat) (mode : LevelParams.CPMode) :
+    checkCParams (LevelParams.getCParamsInternal level src dict mode) = true :=
+  (LevelParams.check_iff _).2 (LevelParams.getCParamsInternal_inBounds level src dict mode)
+
+/-- the public ZSTD_getCParams / ZSTD_getParams -/
+theorem public_getCParams_valid (level : Int) (src dict : Nat) : checkCParams (LevelParams.getCParamsPublic level src dict) = true :=
+  raw_level_derivation_valid level _ dict .unknown
+
+/-- ZSTD_getCParamsFromCCtxParams (every advanced / streaming frame start): any stored level, explicit parameters as the setters leave them -/
+theorem cctxParams_derivation_valid (level : Int) (ov : CPar) (ldmOn : Bool) (hint src dict : Nat) (mode : LevelParams.CPMode) (rowMode : Nat)
+    (ho : LevelParams.OvOk ov) : checkCParams (LevelParams.fromCCtxParams level ov ldmOn hint src dict mode rowMode) = true :=
+  (LevelParams.check_iff _).2 (LevelParams.fromCCtxParams_inBounds level ov ldmOn hint src dict mode rowMode ho)
+
+/-- ZSTD_createCDict / ZSTD_createCDict_byReference -/
+theorem createCDict_derivation_valid (level : Int) (dictSize : Nat) : checkCParams (LevelParams.createCDictCParams level dictSize) = true :=
+  (LevelParams.check_iff _).2 (LevelParams.createCDict_inBounds level dictSize)
+
+example : LevelParams.OvOk LevelParams.noOverride := by
+  refine ⟨Or.inl rfl, Or.inl rfl, Or.inl rfl, Or.inl rfl, Or.inl rfl, by decide, Or.inl rfl⟩
+example : (LevelParams.getCParamsPublic (-2147483648) 0 0).targetLength = 131072 ∧ (LevelParams.getCParamsPublic 3 0 0).windowLog = 21 := by decide
+
+example : LevelParams.accel (-2147483648) = 131072 ∧ LevelParams.accel (-5) = 5 ∧ LevelParams.rowOfLevel 2147483647 = 22 := by decide
 
 end ZstdVerif.Props.C16
